@@ -135,7 +135,14 @@ type caseSpec struct {
 	Hostile  []pkt  `json:"hostile"`
 	ProbeTS  uint32 `json:"probe_first_video_timestamp"`
 	ProbeK   int    `json:"probe_access_units"`
+	HLSJump  string `json:"presentation_timeline_jump,omitempty"`
+	HLSWaitMs int   `json:"hls_wait_ms,omitempty"` // 0 = the default bound
 }
+
+// sigHLSJump: listed finding — the HLS segmenter cannot follow a jump of the
+// presentation timeline (see TestWitnessHlsTimelineJump).
+const sigHLSJump = "hls-stalls-after-presentation-time-jump"
+
 
 func (c *caseSpec) codec() esgen.Codec {
 	if c.Codec == "H265" {
@@ -435,6 +442,7 @@ type result struct {
 	HLSMiss   string   `json:"hls_continuation,omitempty"`
 	HasFLV    bool     `json:"-"`
 	HasHLS    bool     `json:"-"`
+	HLSSkipped bool    `json:"hls_subcheck_skipped_listed_finding,omitempty"`
 	TwinRTP   []int    `json:"-"`
 	TwinFLV   []string `json:"-"`
 	TwinMiss  string   `json:"twin_continuation,omitempty"`
@@ -473,11 +481,17 @@ func runCase(c *caseSpec, inject bool) *result {
 	defer b.s.Close()
 	res := &result{}
 	res.HasFLV = a.s.Video.Codec == "H264" || a.s.Video.Codec == "H265"
-	res.HasHLS = hlsOf(a.s) != nil
+	hlsStream := hlsOf(a.s) != nil
+	res.HasHLS = hlsStream
+	if res.HasHLS && inject && c.HLSJump != "" && evid.Known(sigHLSJump) {
+		evid.Excluded(sigHLSJump)
+		res.HasHLS = false
+		res.HLSSkipped = true
+	}
 	k := c.ProbeK
 	if k <= 0 {
 		k = 3
-		if res.HasHLS {
+		if hlsStream {
 			k = 6
 		}
 	}
@@ -535,8 +549,12 @@ func runCase(c *caseSpec, inject bool) *result {
 	if res.Escaped != nil {
 		return res
 	}
-	res.RTPMiss, res.FLVMiss, res.HLSMiss = continuation(a, pa, res.HasFLV, res.HasHLS)
-	r2, f2, h2 := continuation(b, pb, res.HasFLV, res.HasHLS)
+	hb := bound
+	if c.HLSWaitMs > 0 {
+		hb = time.Duration(c.HLSWaitMs) * time.Millisecond
+	}
+	res.RTPMiss, res.FLVMiss, res.HLSMiss = continuation(a, pa, res.HasFLV, res.HasHLS, hb)
+	r2, f2, h2 := continuation(b, pb, res.HasFLV, hlsStream, bound)
 	if r2+f2+h2 != "" {
 		res.TwinMiss = strings.TrimSpace(r2 + " " + f2 + " " + h2)
 	}
@@ -561,7 +579,7 @@ func runCase(c *caseSpec, inject bool) *result {
 
 // continuation waits (bounded) for the probe to come out of r and says what is
 // missing.
-func continuation(r *rig, probe []probeAU, hasFLV, hasHLS bool) (rtpMiss, flvMiss, hlsMiss string) {
+func continuation(r *rig, probe []probeAU, hasFLV, hasHLS bool, hlsBound time.Duration) (rtpMiss, flvMiss, hlsMiss string) {
 	var want []*rtp.Packet
 	for _, au := range probe {
 		want = append(want, au.pkts...)
@@ -622,7 +640,7 @@ func continuation(r *rig, probe []probeAU, hasFLV, hasHLS bool) (rtpMiss, flvMis
 	}
 	// (3) HLS: a closed segment holds one of the probe's key frames
 	if hasHLS {
-		ok := mediah.WaitFor(bound, func() bool {
+		ok := mediah.WaitFor(hlsBound, func() bool {
 			for _, au := range probe {
 				if r.hlsHas(au.vtag) {
 					return true
@@ -631,7 +649,7 @@ func continuation(r *rig, probe []probeAU, hasFLV, hasHLS bool) (rtpMiss, flvMis
 			return false
 		})
 		if !ok {
-			hlsMiss = fmt.Sprintf("HLS: no segment served by the playlist holds any of the %d probe key frames within %v", len(probe), bound)
+			hlsMiss = fmt.Sprintf("HLS: no segment served by the playlist holds any of the %d probe key frames within %v", len(probe), hlsBound)
 		}
 	}
 	return
